@@ -294,6 +294,26 @@ def check_C06(ctx):
         for i in range(0, len(ops), 200):
             cases.append(Case([[2], []] + ops[i:i + 200], "len/code%d" % cid, levels=(2,)))
     lens = ctx.corr(cases, what="C06 len functions")
+    # every point where a length function steps: enumerate the change points with the MODEL's
+    # change-point iterator, then evaluate the implementation around each of them
+    fc = [Case([[10, 140, 0, cid, p], []], "fcp", levels=(2,)) for (cid, p) in gen.code_params(rng, ctx.tier) if cid != 11]
+    fres = core.run_model(ctx.driver, fc, 2)
+    scases = []
+    for c, r in zip(fc, fres):
+        cid, p = c.groups[0][3], c.groups[0][4]
+        if not r or not r[0] or r[0][0] != 0:
+            continue
+        cps = r[0][1::2]
+        ops = []
+        for x in cps:
+            for d in (-2, -1, 0, 1):
+                v = x + d
+                if 0 <= v <= gen.code_maxv(cid):
+                    for fl in gen.flag_options(cid) + ([4] if 4 not in gen.flag_options(cid) else []):
+                        ops.append([cid, p, fl, v])
+        for i in range(0, len(ops), 300):
+            scases.append(Case([[2], []] + ops[i:i + 300], "len-steps/code%d" % cid, levels=(2,)))
+    ctx.corr(scases, what="C06 len at every step point")
     # len == written == consumed, cross-checked on the implementation
     items = code_items(ctx, dense=False)
     written = write_phase(ctx, items, "C06 len=written")
